@@ -26,6 +26,8 @@ var c06Users = []seedUser{
 	{Name: "adm-eta", PW: "eta-password-2", Admin: true, PID: 1},
 	{Name: "usr-theta", PW: "theta-password-3", Admin: false, PID: 1},
 	{Name: "usr-iota", PW: "iota-password-4", Admin: false, PID: 2},
+	// differs from usr-theta only in letter case: a different user (names are case-sensitive), and an admin
+	{Name: "Usr-Theta", PW: "Theta-password-5", Admin: true, PID: 1},
 }
 
 type c06Req struct {
@@ -43,7 +45,7 @@ type c06Req struct {
 var c06Creds = []string{"none", "garbage", "expired-aged", "expired-sealed", "future-sealed", "tampered", "other-instance", "user-token", "admin-token", "own-token",
 	"oldpw-right", "oldpw-wrong", "both", "both-wrong-token"}
 var c06Shapes = []string{"exact", "exact", "exact", "exact", "extra-fields", "dup-keys", "key-case", "trailing", "missing-field", "null-field", "wrong-type", "empty-strings", "null-body", "array-body", "truncated"}
-var c06Targets = []string{"adm-zeta", "adm-eta", "usr-theta", "usr-iota", "new-kappa", "no-such-user", ".hidden", "-dash", "with space", "Adm-Zeta", "usr-theta ", ""}
+var c06Targets = []string{"adm-zeta", "adm-eta", "usr-theta", "usr-iota", "new-kappa", "no-such-user", ".hidden", "-dash", "with space", "Adm-Zeta", "Usr-Theta", "usr-theta ", ""}
 
 func genC06(t *rapid.T) []c06Req {
 	var reqs []c06Req
@@ -510,16 +512,16 @@ func runC06(reqs []c06Req) string {
 				}
 			}
 			if old == nil {
-				_, _, n, ct := fac.sealToken(fmt.Sprintf("adm-zeta:true:%d", time.Now().Unix()-602))
+				n, ct, _ := harnessSeal(fac, fmt.Sprintf("adm-zeta:true:%d", time.Now().Unix()-602))
 				session = enc(n, ct)
 			} else {
 				session = old.tok
 			}
 		case "expired-sealed":
-			_, _, n, ct := fac.sealToken(fmt.Sprintf("adm-zeta:true:%d", time.Now().Unix()-601-int64(i)))
+			n, ct, _ := harnessSeal(fac, fmt.Sprintf("adm-zeta:true:%d", time.Now().Unix()-601-int64(i)))
 			session = enc(n, ct)
 		case "future-sealed":
-			_, _, n, ct := fac.sealToken(fmt.Sprintf("adm-zeta:true:%d", time.Now().Unix()+5+int64(i)))
+			n, ct, _ := harnessSeal(fac, fmt.Sprintf("adm-zeta:true:%d", time.Now().Unix()+5+int64(i)))
 			session = enc(n, ct)
 		case "tampered":
 			if a := anyUserOf(true); a != "" && useTok(a) {
@@ -761,7 +763,7 @@ func TestC06WebAPI(t *testing.T) {
 // fresh agent, against the same reference authorisation table as the sequences.
 func TestC06Table(t *testing.T) {
 	endpoints := []string{"add", "remove", "update", "set-admin", "list", "list-full"}
-	targets := []string{"adm-zeta", "adm-eta", "usr-theta", "usr-iota", "new-kappa", "no-such-user", ".hidden", ""}
+	targets := []string{"adm-zeta", "adm-eta", "usr-theta", "Usr-Theta", "usr-iota", "new-kappa", "no-such-user", ".hidden", ""}
 	actors := []string{"adm-zeta", "usr-theta"}
 	n := 0
 	for _, ep := range endpoints {
